@@ -60,7 +60,8 @@ def monStep (st : St) (bl : Block) : St × List String :=
       let pixHex := (rest.find? (·.startsWith "pix=")).map (fun s => (s.drop 4).toString)
       let expPix := String.join ((DetStream.tabulateArr w h (fun y x => pixel word raw off w y x)).toList.map DetStream.toHex4)
       (st', (if interiorZero then ["prop=C13 reason=zero-pixel-outside-border-accepted"] else []) ++
-            (if pixHex == some expPix then [] else ["prop=C13 reason=pixels-not-decoded-exactly"]))
+            (if pixHex == some expPix then [] else
+               ["prop=C13 reason=pixels-not-decoded-exactly", "prop=C11 reason=accepted-frame-not-decoded-pixel-for-pixel"]))
     | _ => (st', ["prop=C13 reason=parser-crashed-or-no-output"])
   | _ => (st, [])
 
